@@ -6,6 +6,7 @@ import (
 	"fmt"
 	"go/token"
 	"go/types"
+	"regexp"
 	"sort"
 	"strings"
 
@@ -553,6 +554,8 @@ func c13b(c *Ctx) {
 	}
 }
 
+var topLevelStopRe = regexp.MustCompile(`^-@parser\.topLevelTokens\[\$0\.peekToken(?:![A-Za-z0-9]+)?\.Type\](#1)?$`)
+
 func c13c(c *Ctx) {
 	tbl, ok := c.globalMapLiteral("parser", "topLevelTokens")
 	if !ok {
@@ -570,6 +573,10 @@ func c13c(c *Ctx) {
 	if fn == nil {
 		return
 	}
+	allTrue := true
+	for _, v := range tbl {
+		allTrue = allTrue && v == "true"
+	}
 	// the scan loop exits on topLevelTokens[peek.Type] or EOF
 	okStop := false
 	instrs(fn, func(in ssa.Instruction) {
@@ -577,6 +584,37 @@ func c13c(c *Ctx) {
 			okStop = true
 		}
 	})
+	// ... or: every advance inside the scan loop happens only when the next token is not in the set
+	// (a lookup made by a predicate helper is read through)
+	if !okStop {
+		n := 0
+		okAll := true
+		for _, ci := range callsIn(fn) {
+			if !strings.HasSuffix(calleeName(ci), "/parser.Parser).nextToken") {
+				continue
+			}
+			b := ci.Block()
+			inLoop := false
+			for _, blk := range fn.Blocks {
+				if isLoopHeader(blk) && loopBody(blk)[b] {
+					inLoop = true
+				}
+			}
+			if !inLoop {
+				continue
+			}
+			n++
+			hit := false
+			for _, l := range c.mustLits(fn, b) {
+				if m := topLevelStopRe.FindStringSubmatch(l); m != nil {
+					// `tbl[k]` means membership only while every entry is true
+					hit = m[1] != "" || allTrue
+				}
+			}
+			okAll = okAll && hit
+		}
+		okStop = n > 0 && okAll
+	}
 	c.Check(okStop, "parseConstant/stops-at-top-level", c.W.FuncPos(fn), "value scan tests the next token against the top-level keyword set", "the constant value scan no longer stops at the next top-level keyword")
 }
 
